@@ -10,8 +10,9 @@ C08.here    at the queried name itself: a cut leads to query_at_cut, a CNAME
             marker to a CNAME answer, the NXDOMAIN marker to NXDOMAIN, an
             ordinary node to the RRset lookup.
 C08.below   on the way down: a cut yields a referral (NS, DS, glue) and no
-            descent; the NXDOMAIN marker yields NXDOMAIN; CNAME-marked and
-            ordinary nodes descend into their children.
+            descent; CNAME-marked, ordinary *and NXDOMAIN-marked* nodes
+            descend into their children (the marker is maintained from the
+            node's own RRsets only, so it also sits on empty non-terminals).
 C08.cut     at a cut, DS is answered from the parent side (data or NODATA);
             every other type gets the referral.
 C08.wild    children are searched for the exact label first; only without one
@@ -145,7 +146,9 @@ def rule_below(ctx, F):
     arms = _arms(b, F, only_non_walk=True)
     table = {
         "Cut": (["authority"], "names below a delegation are answered with the referral, never by descending into occluded data"),
-        "NxDomain": (["nx_domain"], "below a non-existent name everything is NXDOMAIN"),
+        "NxDomain": (["query_children"], "the marker only says that the node itself owns no records (write.rs check_nx_domain sets "
+                                         "it from the node's own RRsets): names below it are decided by its children -- an empty "
+                                         "non-terminal has descendants with data, and walk() does descend"),
         "Cname": (["query_children"], "a CNAME at an intermediate name does not stop the descent"),
         "None": (["query_children"], "ordinary intermediate names descend into their children"),
     }
